@@ -238,7 +238,17 @@ def corpus_threads() -> list[dict]:
         cs.append(_case(kind, [["serve"], ["shutdown", "probe"], ["close", "serve"]], [[0], [50, 0], [50, 0]]))
         cs.append(_case(kind, [["serve"], ["close", "probe"], ["close", "serve"]], [[0], [50, 0], [51, 0]]))
         cs.append(_case(kind, [["serve"], ["shutdownT", "shutdownT", "shutdown", "probe"]], [[0], [30, 0, 0, 0]]))
-    return cs + corpus_nst()
+    return cs + corpus_nst() + corpus_fixed_port_sampled()
+
+
+def corpus_fixed_port_sampled() -> list[dict]:
+    """fixed port, sampled schedules (jitters let the server come up): serve -> bye (the server closes the connection first)
+    -> shutdown -> serve again -> echo; NetworkServerThread start / join / start"""
+    cs = []
+    for kind in ("tcp",):
+        cs.append({**_case(kind, [["serve", "serve"], ["bye", "shutdown", "echo", "echo"]], [[0, 0], [80, 0, 0, 80]]), "port": "fixed"})
+        cs.append({**_case(kind, [["tstart", "bye", "echo", "tjoin", "probe", "tstart", "echo", "bye", "tjoin", "tstart", "echo"]]), "port": "fixed"})
+    return cs
 
 
 def corpus_nst() -> list[dict]:
@@ -274,6 +284,22 @@ NST_OPS = ["tstart", "tstart", "tstart", "tjoin", "tjoin", "tjoinT", "shutdown",
 
 
 def rand_case(rng) -> dict:
+    c = _rand_case(rng)
+    if rng.random() < 0.10:
+        # a fixed port, and clients whose connection the server closes first
+        c["port"] = "fixed"
+        for p in c["progs"]:
+            for k, op in enumerate(p):
+                if op == "echo" and rng.random() < 0.7:
+                    p[k] = "bye"
+        if not any("bye" in p for p in c["progs"]):
+            i = rng.randrange(len(c["progs"]))
+            c["progs"][i].insert(rng.randint(0, len(c["progs"][i])), "bye")
+            c["jit"][i].insert(0, rng.choice([30, 60, 60]))
+    return c
+
+
+def _rand_case(rng) -> dict:
     kind = rng.choice(["tcp", "udp"])
     n = rng.choice([2, 2, 3, 3, 4])
     if rng.random() < 0.35:
@@ -424,7 +450,79 @@ def corpus_gated() -> list[dict]:
         for x, y, (pos, lp) in (("probe", "close", hot[0]), ("shutdown", "probe", hot[1]), ("addrs", "shutdownT", hot[2]), ("close", "shutdown", hot[3])):
             cs.append(_gcase(kind, [["serve"], ["w:up", "shutdown", "serve"], ["w:L:xb", x, "probe"],
                                     [f"w:2:{pos.split('+')[0]}|2:ret", y, "probe"]], _window(2, pos, lp)))
-    return cs + corpus_tail() + corpus_gated_accept()
+    return cs + corpus_tail() + corpus_gated_accept() + corpus_fixed_port()
+
+
+def corpus_fixed_port() -> list[dict]:
+    """"a stopped server can serve again unless it was closed" where the restart has to BIND AGAIN: the standalone servers
+    build a new embedded server (new listening sockets on the configured (host, port)) at every serve_forever().  With the
+    port 0 of every other history each run gets a fresh ephemeral port; here the port is FIXED (reserved for the history,
+    vlib/c18_ports.py), and the first run has client activity of every kind: connections the SERVER closes first (`bye`: the
+    handler answers and calls `client.aclose()`; the server's side of the connection stays in TIME_WAIT on the server's
+    port), connections the client closes first (`echo`), connections still open at shutdown() (`conn`: aborted by the
+    server).  Then shutdown() / shutdown(timeout) / NetworkServerThread.join() and serve_forever() AGAIN on the same object,
+    at once (rendez-vous on events, no sleeps): a client gets its answer.  Controls: server_close() instead -> refused."""
+    cs = []
+
+    def fx(kind: str, progs: list[list[str]]) -> dict:
+        return {**_gcase(kind, progs, []), "port": "fixed"}
+
+    for kind in ("tcp", "udp"):
+        # the history of the clause: one server-closed connection, shutdown, serve again
+        cs.append(fx(kind, [["serve", "serve"], ["w:up", "bye", "shutdown", "w:up#2", "echo", "probe"]]))
+        if kind == "udp":
+            # (UDP has no TIME_WAIT: a cheap control; the main history, NetworkServerThread, the close control)
+            cs.append(fx(kind, [["tstart", "bye", "tjoin", "probe", "tstart", "echo", "bye", "tjoin"]]))
+            cs.append(fx(kind, [["serve", "serve"], ["w:up", "bye", "close", "probe", "echo"]]))
+            continue
+        # every kind of client activity in the first run
+        cs.append(fx(kind, [["serve", "serve"], ["w:up", "echo", "bye", "bye", "echo", "shutdown", "w:up#2", "echo", "bye", "probe"]]))
+        if kind == "tcp":
+            cs.append(fx(kind, [["serve", "serve"], ["w:up", "conn", "bye", "shutdown", "w:up#2", "echo", "disc", "probe"]]))
+        # three runs on the same object, a server-closed connection in each
+        cs.append(fx(kind, [["serve", "serve", "serve"], ["w:up", "bye", "shutdown", "w:up#2", "bye", "echo", "shutdown", "w:up#3", "echo", "addrs"]]))
+        # shutdown(timeout) that times out first, then shutdown(); a second thread's shutdown racing
+        cs.append(fx(kind, [["serve", "serve"], ["w:up", "bye", "shutdownT", "shutdown", "w:up#2", "echo"], ["w:1:ret:bye", "shutdown", "probe"]]))
+        # the restart issued by another thread than the first run's
+        cs.append(fx(kind, [["serve"], ["w:up", "bye", "shutdown", "serve"], ["w:up#2", "echo", "bye", "probe"]]))
+        # NetworkServerThread: start, a server-closed connection, join, start again
+        cs.append(fx(kind, [["tstart", "bye", "tjoin", "probe", "tstart", "echo", "bye", "tjoin", "tstart", "echo", "tjoin"]]))
+        # only client-closed connections / no client at all before the restart (controls: nothing lingers on the port)
+        cs.append(fx(kind, [["serve", "serve"], ["w:up", "echo", "shutdown", "w:up#2", "echo"]]))
+        cs.append(fx(kind, [["serve", "serve"], ["w:up", "shutdown", "w:up#2", "bye", "echo"]]))
+        # control: closed instead of stopped -> ServerClosedError, nothing listening
+        cs.append(fx(kind, [["serve", "serve"], ["w:up", "bye", "close", "probe", "echo"]]))
+    return cs
+
+
+def rand_fixed_port(rng) -> dict:
+    """random fixed-port standalone histories: 2-3 runs on the same server object, clients of every kind in each run (the
+    server closing the connection first, the client closing first, still connected at the stop), stopped by shutdown() /
+    shutdown(timeout) + shutdown() / NetworkServerThread.join(); the next run starts at once"""
+    kind = rng.choice(["tcp", "tcp", "tcp", "udp"])
+    runs = rng.choice([2, 2, 3])
+
+    def clients() -> list[str]:
+        ops = [rng.choice(["bye", "bye", "bye", "echo", "conn" if kind == "tcp" else "echo"]) for _ in range(rng.randint(1, 3))]
+        return ops
+
+    if rng.random() < 0.3:
+        p: list[str] = []
+        for r in range(runs):
+            p += ["tstart"] + [op for op in clients() if op != "conn"] + ["tjoin"]
+        return {**_gcase(kind, [p + ["probe"]], []), "port": "fixed"}
+    p1: list[str] = []
+    for r in range(runs):
+        p1 += [f"w:up#{r + 1}" if r else "w:up"] + clients()
+        if r < runs - 1:
+            p1 += rng.choice([["shutdown"], ["shutdown"], ["shutdownT", "shutdown"]])
+            if "conn" in p1 and "disc" not in p1 and rng.random() < 0.5:
+                p1.append("disc")
+    p1.append(rng.choice(["probe", "addrs", "shutdown"]))
+    if rng.random() < 0.3:
+        # the restart is issued by another thread than the one whose serve_forever() has just returned
+        return {**_gcase(kind, [["serve"], p1, ["w:0:ret"] + ["serve"] * (runs - 1)], []), "port": "fixed"}
+    return {**_gcase(kind, [["serve"] * runs, p1], []), "port": "fixed"}
 
 
 TAIL_PTS = ("L:xd", "L:r1", "L:r2", "L:r3", "L:close", "L:closed")
